@@ -500,3 +500,35 @@ def evaluation_time(x: int, p0: int, p1: int, q: int, present: bool) -> int:
     if got[0] != "ok" or not same(got[1], exp):
         return 0
     return 2
+
+
+@harness("C13", lemma="explain-under-options", example=dict(x=2, k=3, pk=True, f=4), timeout=120,
+         bounds="a pipeline of two decorated steps whose parameters are Option('K', default=Option('K_FALLBACK')) and an option holding "
+                "a templated value; K present or absent",
+         what="explain(o) of a pipeline / of e >> pipeline is the union of its steps' explain(o) under the SAME options and contains keys(o)")
+def explain_under_options(x: int, k: int, pk: bool, f: int) -> int:
+    with untraced():
+        @pipeline_step
+        def scale(v, kk=Option("K", default=Option("K_FALLBACK"))):
+            return ("scale", v, kk)
+
+        @pipeline_step
+        def label(v, text=Option("LABEL")):
+            return ("label", v, text)
+
+        pipe = scale + label
+    o = {"K_FALLBACK": f, "LABEL": "{WHO}-x", "WHO": "w"}
+    if pk:
+        o["K"] = k
+    for node in (pipe, Pipeline() + scale + label, Option("A", 0) >> pipe):
+        ex = outcome(lambda: node.explain(o))
+        ks = outcome(lambda: node.keys(o))
+        want = scale.explain(o) | label.explain(o)
+        note("options", o, "explain", ex, "keys", ks, "union of the steps' explain(o)", want)
+        if ex[0] != "ok" or ks[0] != "ok":
+            return 0
+        if not want <= ex[1] or not ks[1] <= ex[1]:
+            return 0
+        if ("K" in ex[1]) != pk or "WHO" not in ex[1]:
+            return 0
+    return 2
